@@ -53,6 +53,13 @@ partial def ofV : V → Json
 /-- canonical text of a value: keys sorted (Json objects are ordered maps), numbers normalised -/
 def canonStr (v : V) : String := (ofV v).compress
 
+/-- normalise numbers (and key order) of arbitrary JSON, for textual comparison -/
+partial def normJson : Json → Json
+  | .num n => ratToJson (ratOfJsonNumber n)
+  | .arr xs => .arr (xs.map normJson)
+  | .obj kvs => Json.mkObj (kvs.toList.map (fun (k, v) => (k, normJson v)))
+  | j => j
+
 def bsToV (bs : Bs) : V := .obj bs
 
 def canonBs (bs : Bs) : String := canonStr (.obj bs)
